@@ -23,7 +23,7 @@ EXPLANATION = (
     "result; in process_input unhandled_input is not reachable when the widget handled the key/mouse event and is reached (or the redraw command) when it did not."
     ' Added after seed round 3: signal_restore is understood also when folded into a loop over (signal, saved handler) pairs and the restored expression may replace only a None / false saved value by SIG_DFL; (5) inside the batch loop of process_input the top widget (and anything derived from it) is read afresh for every event.'
     ' Round 4: a signal that signal_init() does not replace (SIGCONT) is restored only under a flag raised where it is replaced; the Twisted capturing wrapper catches BaseException (C13.1).'
-    ' Round 5: (7) TrioEventLoop takes off at most the one ExceptionGroup layer its own nursery adds.'
+    ' Round 5: (7) TrioEventLoop takes off at most the one ExceptionGroup layer its own nursery adds; (8) PAIR: every hook MainLoop.start() registers (idle callback, input watchers, descriptor-change signal, started screen) is released by stop() on all its normal paths and _run() passes stop() on the normal and on the exceptional exit (before fix 35c16b8 an exception-terminated run() left the watchers and the idle redraw in the event loop); a `finally` around event_loop.run() must not contain return / raise / break.'
 )
 NOT_DECIDED = "That the terminal really ends up in its initial modes (needs a pty), delivery order across reads, redraw-before-wait timing, failures inside MainLoop.start()/stop() themselves."
 ASSUMPTIONS = ["glib_loop.py cannot be imported here; its reports are informational only."]
@@ -74,6 +74,11 @@ def rule_run_restores(ctx: Ctx) -> RuleResult:
                 body_raises = [x for x in h.body if isinstance(x, ast.Raise)]
                 if not body_raises or body_raises[-1].exc is not None:
                     rr.add(finding("PASS", run_, h, "the handler around event_loop.run() does not end with a bare `raise`: the callback's exception would not propagate unchanged", construct="handler does not re-raise"))
+        # ... or a `finally` that cannot replace the exception in flight
+        for tr in [t for t in run_.own_nodes() if isinstance(t, ast.Try) and t.finalbody and any(x is r.stmt for b in t.body for x in ast.walk(b))]:
+            rr.inst("finally keeps the exception in flight", True, {"finally": norm(tr.finalbody[0], 40)})
+            for x in [y for b in tr.finalbody for y in walk_no_nested(b) if isinstance(y, (ast.Return, ast.Raise, ast.Break, ast.Continue))]:
+                rr.add(finding("PASS", run_, x, f"`{norm(x, 40)}` inside the `finally` around event_loop.run() replaces the exception in flight: the callback's exception would not propagate unchanged", construct="finally replaces the exception"))
     # fallback branch
     fb = nodes_where(cfg, lambda s: isinstance(s, ast.Call) and callee_name(s) == "_run_screen_event_loop")
     for f in fb:
@@ -99,6 +104,61 @@ def rule_run_restores(ctx: Ctx) -> RuleResult:
 
 
 _MODE = re.compile(r"\x1b\[\?(\d+)([hl])")
+
+
+_RELEASE_OF = {"enter_idle": "remove_enter_idle", "hook_event_loop": "unhook_event_loop", "connect_signal": "disconnect_signal", "start": "stop"}
+
+
+def rule_run_releases(ctx: Ctx) -> RuleResult:
+    """Everything MainLoop.start() registers - the idle callback, the screen's input watchers, the descriptor-change
+    signal, the started screen - is released on every way out of _run() once the event loop ran: stop() releases each
+    of them on all its normal paths and _run() passes stop() (or the release itself) on the normal exit and on the
+    exceptional one.  Before fix 35c16b8 the exceptional exit only stopped the screen."""
+    p = ctx.p
+    rr = RuleResult("PAIR", "C12.8", "every hook MainLoop.start() adds (idle callback, input watchers, descriptor signal, started screen) is removed on every exit of _run() after the event loop ran - also the exceptional one", floor=8)
+    start, stop, run_ = p.func(f"{ML}.start"), p.func(f"{ML}.stop"), p.func(f"{ML}._run")
+
+    def named_calls(fi, seen=()):
+        out = []
+        for c in calls_in(fi):
+            nm = callee_name(c)
+            if nm:
+                out.append((nm, c, fi))
+            if isinstance(c.func, ast.Attribute) and isinstance(c.func.value, ast.Name) and c.func.value.id == fi.self_name and nm not in seen:
+                g = p.func(f"{ML}.{nm}") if f"{ML}.{nm}" in p.functions else None
+                if g is not None and g is not fi:
+                    out += named_calls(g, (*seen, nm))
+        return out
+
+    acquired = []
+    for nm, c, fi in named_calls(start):
+        if nm in _RELEASE_OF and (nm != "start" or ast.unparse(c.func.value) == "self.screen") and nm not in [a for a, _ in acquired]:
+            acquired.append((nm, f"{short(fi)}: {norm(c, 60)}"))
+    if len(acquired) < 4:
+        raise AnalysisError(f"MainLoop.start() acquisitions found: {acquired}; expected screen.start, connect_signal, hook_event_loop, enter_idle")
+    scfg, cfg = cfg_of(stop), cfg_of(run_)
+    runs = nodes_where(cfg, lambda s: isinstance(s, ast.Call) and isinstance(s.func, ast.Attribute) and s.func.attr == "run" and "event_loop" in ast.unparse(s.func.value))
+    if not runs:
+        raise AnalysisError("MainLoop._run no longer calls self.event_loop.run()")
+
+    def rel_nodes(g, name):
+        return nodes_where(g, lambda s: isinstance(s, ast.Call) and callee_name(s) == name and (name != "stop" or ast.unparse(s.func.value) == "self.screen"))
+
+    self_stop = nodes_where(cfg, lambda s: isinstance(s, ast.Call) and isinstance(s.func, ast.Attribute) and s.func.attr == "stop" and ast.unparse(s.func.value) == "self")
+    for acq, where in acquired:
+        rel = _RELEASE_OF[acq]
+        in_stop = rel_nodes(scfg, rel)
+        ok_stop = bool(in_stop) and scfg.must_pass(scfg.entry, in_stop, ends=[scfg.exit], labels=("n", "T", "F"))
+        rr.inst(f"stop() releases {acq}", True, {"acquired": where, "release": rel})
+        if not ok_stop:
+            rr.add(finding("PAIR", stop, stop.node, f"MainLoop.start() registers `{acq}` ({where}) but MainLoop.stop() has a normal path without `{rel}()`: the hook stays in the event loop after the main loop ended", construct=f"stop() without {rel}"))
+        for r in runs:
+            covers = rel_nodes(cfg, rel) + (self_stop if ok_stop else [])
+            for end, what in ((cfg.exit, "normal"), (cfg.raise_exit, "exceptional")):
+                rr.inst(f"_run {what} exit releases {acq}", True)
+                if not cfg.must_pass(r, covers, ends=[end]):
+                    rr.add(finding("PAIR", run_, r.stmt, f"after event_loop.run() the {what} exit of _run() can be reached without `{rel}()` (directly or through self.stop()): what start() registered with `{acq}` ({where}) stays registered - after an exception from a callback the event loop keeps the stopped screen's watchers / idle redraw, and a second run() doubles them", construct=f"{what} exit without {rel}"))
+    return rr
 
 
 def _escape_names(p, fi, branch_param=None, branch_value=None):
@@ -459,6 +519,7 @@ def rule_exception_identity(ctx: Ctx) -> RuleResult:
 def run(ctx: Ctx):
     return [
         rule_run_restores(ctx),
+        rule_run_releases(ctx),
         rule_mode_pairs(ctx),
         c13.rule_wrap(ctx, "C12.3"),
         rule_pipeline(ctx),
@@ -479,8 +540,12 @@ MUTANTS = [
     Mut("topmost-stale-in-batch", "urwid/event_loop/main_loop.py", "MainLoop.process_input", "        something_handled = False\n\n        for key in keys:\n            if key == \"window resize\":\n                continue\n\n            if isinstance(key, str):\n                if self._topmost_widget.selectable():\n                    if handled_key := self._topmost_widget.keypress(self.screen_size, key):", "        something_handled = False\n        topmost = self._topmost_widget\n\n        for key in keys:\n            if key == \"window resize\":\n                continue\n\n            if isinstance(key, str):\n                if topmost.selectable():\n                    if handled_key := topmost.keypress(self.screen_size, key):", "SNAP|event_loop.main_loop.MainLoop.process_input"),
     Mut("restore-only-callable-handlers", "urwid/display/_posix_raw_display.py", "Screen.signal_restore", "self.signal_handler_setter(signal.SIGTSTP, self._prev_sigtstp_handler or signal.SIG_DFL)", "self.signal_handler_setter(signal.SIGTSTP, self._prev_sigtstp_handler if callable(self._prev_sigtstp_handler) else signal.SIG_DFL)", "PAIR|display._posix_raw_display.Screen.signal_restore"),
     Mut("twin-restore-folded-into-loop", "urwid/display/_posix_raw_display.py", "Screen.signal_restore", "        self.signal_handler_setter(signal.SIGTSTP, self._prev_sigtstp_handler or signal.SIG_DFL)\n", "        for signum, previous in (\n            (signal.SIGTSTP, self._prev_sigtstp_handler),\n        ):\n            self.signal_handler_setter(signum, previous or signal.SIG_DFL)\n", twin=True),
-    Mut("run-stop-only-on-exception-subclass", _M, "MainLoop._run", "        except:\n            self.screen.stop()  # clean up screen control\n            raise", "        except Exception:\n            self.screen.stop()  # clean up screen control\n            raise", "PASS|"),
-    Mut("run-reraise-wrapped", _M, "MainLoop._run", "            self.screen.stop()  # clean up screen control\n            raise\n", "            self.screen.stop()  # clean up screen control\n            raise RuntimeError(\"event loop failed\")\n", "PASS|"),
+    Mut("run-stop-only-on-exception-subclass", _M, "MainLoop._run", "        finally:\n            self.stop()  # clean up screen control and the hooks added to the event loop\n", "        except Exception:\n            self.stop()\n            raise\n        self.stop()\n", "PASS|"),
+    Mut("run-reraise-wrapped", _M, "MainLoop._run", "        finally:\n            self.stop()  # clean up screen control and the hooks added to the event loop\n", "        except:\n            self.stop()\n            raise RuntimeError(\"event loop failed\")\n        self.stop()\n", "PASS|"),
+    Mut("run-exception-stops-screen-only", _M, "MainLoop._run", "        finally:\n            self.stop()  # clean up screen control and the hooks added to the event loop\n", "        except:\n            self.screen.stop()  # clean up screen control\n            raise\n        self.stop()\n", "PAIR|event_loop.main_loop.MainLoop._run|exceptional exit without remove_enter_idle"),
+    Mut("twin-run-except-and-tail-stop", _M, "MainLoop._run", "        finally:\n            self.stop()  # clean up screen control and the hooks added to the event loop\n", "        except:\n            self.stop()\n            raise\n        self.stop()\n", twin=True),
+    Mut("stop-keeps-idle-callback", _M, "MainLoop.stop", "        self.event_loop.remove_enter_idle(self.idle_handle)\n        del self.idle_handle\n", "        del self.idle_handle\n", "PAIR|event_loop.main_loop.MainLoop.stop|stop() without remove_enter_idle"),
+    Mut("finally-returns", _M, "MainLoop._run", "        finally:\n            self.stop()  # clean up screen control and the hooks added to the event loop\n", "        finally:\n            self.stop()\n            return\n", "PASS|event_loop.main_loop.MainLoop._run|finally replaces the exception"),
     Mut("bracketed-paste-not-disabled", _P, "urwid.display._posix_raw_display.Screen._stop", "            self.write(escape.DISABLE_BRACKETED_PASTE_MODE)", "            pass", "PAIR|"),
     Mut("focus-reporting-other-guard", _P, "urwid.display._posix_raw_display.Screen._stop", "        if self.focus_reporting:\n            self.write(escape.DISABLE_FOCUS_REPORTING)", "        if self.bracketed_paste_mode:\n            self.write(escape.DISABLE_FOCUS_REPORTING)", "PAIR|"),
     Mut("unhandled-input-short-circuit", _M, "MainLoop.process_input", "something_handled |= bool(self.unhandled_input(key))", "something_handled = something_handled or bool(self.unhandled_input(key))", "ORDER|event_loop.main_loop.MainLoop.process_input"),
